@@ -251,7 +251,7 @@ func (state *RuntimeState) webauthnAuthFinish(w http.ResponseWriter, r *http.Req
 		return
 	}
 	w.(*instrumentedwriter.LoggingWriter).SetUsername(authData.Username)
-	profile, ok, _, err := state.LoadUserProfile(authData.Username)
+	profile, ok, fromCache, err := state.LoadUserProfile(authData.Username)
 	if err != nil {
 		logger.Printf("loading profile error: %v", err)
 		http.Error(w, "error", http.StatusInternalServerError)
@@ -340,7 +340,11 @@ func (state *RuntimeState) webauthnAuthFinish(w http.ResponseWriter, r *http.Req
 		if ok {
 			u2fReg.Counter = parsedResponse.Response.AuthenticatorData.Counter
 			profile.U2fAuthData[credentialIndex] = u2fReg
-			go state.SaveUserProfile(authData.Username, profile)
+			if !fromCache {
+				// A profile that came from the local cache may be older
+				// than the one in the primary DB: never write it back.
+				go state.SaveUserProfile(authData.Username, profile)
+			}
 		}
 
 		verifiedAuth = AuthTypeU2F
